@@ -239,7 +239,10 @@ Inductive op :=
 | OUpsertAll | OUpsertNothing | OUpsertCols (cols : list string)
 | OSave
 | OUpdatesStruct | OUpdatesMap            (* Updates(struct) ; Update / Updates(map) *)
-| OUpdateColumnsStruct | OUpdateColumnsMap.
+| OUpdateColumnsStruct | OUpdateColumnsMap
+| OCreateMaps                   (* Model(&T{}).Create(&[]map[string]interface{}{...}): ConvertSliceOfMapToValuesForCreate *)
+| OFocAssign                    (* [Model(&T{}).]Where(rows).Assign(map).FirstOrCreate(&dest), a row is found *)
+| OFoiAssign.                   (* the same chain with FirstOrInit *)
 
 Definition key_name (s : schema) : string :=
   match find f_pk (col_fields s) with Some f => f_db f | None => "id" end.
@@ -321,6 +324,20 @@ Definition run_op (s : schema) (table : string) (o : op) (selects omits : list s
       mk_outcome (map (fun a => mk_cell 1001 (fst a) (snd a))
                       (filter (fun a => negb (String.eqb (fst a) (key_name s)))
                               (canon s (map (fun c => (c, KPay)) cols)))) false
+  | OCreateMaps =>
+      (* every map of the batch names the same fields (domain), in column or field spelling: the
+         column list is the union of the keys resolved by LookUpField and filtered by the select map *)
+      let sm := select_and_omit s table selects omits true false in
+      let set := filter (fun a => negb (String.eqb (fst a) (key_name s)))
+                        (canon s (map (fun c => (c, KPay)) (create_map_cols s sm p))) in
+      mk_outcome (List.concat (map (fun n => map (fun a => mk_cell n (fst a) (snd a)) set)
+                                   (map (fun i => 1001 + Z.of_nat i) (seq 0 (length ps))))) false
+  | OFocAssign =>
+      (* FirstOrCreate, found + Assign: tx.Model(dest).Updates(assigns) — a hook-running map update
+         pinned to the key of the FOUND record (the first matching row in key order), whatever Model
+         the caller put on the chain *)
+      do_update s (firstn 1 rows) (assign_map s (select_and_omit s table selects omits false true) false p)
+  | OFoiAssign => mk_outcome [] false          (* FirstOrInit never writes *)
   | OUpsertAll | OUpsertNothing | OUpsertCols _ => upsert s table selects omits ids [] o p
   | OSave =>
       if fst p =? 0 then
